@@ -27,6 +27,12 @@ CHECKS = {
    design_ref="DESIGN.md section 6 C13",
    note=COMMON_NOTE + "Hand-modelled: Model/KeyScheduleCode.v (shape of key_schedule.rs, psk/secret.rs, secret_tree.rs) and Model/KeyScheduleRFC.v (RFC text). Gallina SHA-2/HMAC/HKDF are trusted as the reference (validated by known answers).",
    technique="Coq proof (code-shaped = RFC) + byte-exact vm_compute correspondence with Gallina SHA-2/HKDF"),
+ "C05": dict(
+   category="proof",
+   text="Coq theorems (Props/C05.v) over the ratchet state machine (generation counter, key history, 1024 window in u32 arithmetic, one ratchet per leaf and content kind): for EVERY sequence of receive requests no generation is accepted twice (replay refused), a refused request leaves the ratchet unchanged, every not-yet-delivered generation inside the window is accepted in any order, the window is exactly 1024; for EVERY interleaving of sends by any members no (leaf, kind, generation) - hence no key/nonce pair - is handed out twice and application/handshake never share one. Tie: the model's accept/reject per request is compared (vm_compute) with the library's SecretTree driven directly and with whole groups under permuted, duplicated deliveries and save/reload.",
+   design_ref="DESIGN.md section 6 C05",
+   note=COMMON_NOTE + "Hand-modelled: Model/Ratchet.v from secret_tree.rs. Idealisation: distinct (leaf, kind, generation) give distinct keys (KDF collision-freeness; the key values themselves are C13). The (key, nonce) pairs actually passed to aead_seal are checked for duplicates on the implementation.",
+   technique="Coq proof over ratchet state machine + vm_compute correspondence"),
 }
 NOT_YET = {}
 props = [json.loads(l) for l in open(os.path.join(V, "properties.jsonl"))]
